@@ -1,5 +1,6 @@
 PROP = {
-    "groups": ["buffer", "pump"],
+    "shared_groups": "also runs the neighbouring groups whose code can break this property: noise (described under C16)",
+    "groups": ["buffer", "pump", "noise"],
     "rule": "sequences of strict-line / junk-line / sized-binary reads on the real trzszBuffer with every chunk queued beforehand "
             "(the timeout fires exactly when the queue is empty, so Blocked is observed deterministically), compared with the "
             "extracted model (run, and run_cont = reading on after an interrupt plus the chunks popBuffer then returns): corpus of "
